@@ -85,6 +85,14 @@ CHECKS = {
         "conditions of generator and validator are the same four; Move is constructible only through gated constructors. Does not decide "
         "generator<=>validator equivalence for non-castling moves nor that the emitted bitboard arithmetic is the chess move set.",
    note=TB + "matches_piece/from_castling/allowed_mask are tabulated by constant folding."),
+ "C11": dict(cat="other", ref="DESIGN.md §3 C11",
+   technique="abstract-point evaluation of the validation decision tree (972 points); condition-set extraction for the normalising writes",
+   text="Static: TryFrom<RawBoard> is evaluated on every combination of the abstract validity inputs (en-passant mark/rank, men per side "
+        "around 16, kings per side 0/1/2, back-rank pawn, opponent king attacked): it returns Ok exactly when no condition is violated and "
+        "every reported reason holds; the only fields it rewrites are ep_source and castling, under exactly the documented eight castling "
+        "conditions and the two en-passant conditions; the occupancy loop is wired colour->set, cell->pieces; the hash is the from-scratch "
+        "hash of the normalised board. The loop's arithmetic and idempotence are not evaluated separately.",
+   note=TB + "count_ones(white/black/kings) are abstract inputs; their relation to the cells is the wiring rule V3."),
 }
 
 NOT_YET = {}
